@@ -50,6 +50,9 @@ def gen_case(rng, tier):
     g = gen.Gen(rng, cfg)
     case = gen.case_from(g, g.tree())
     case["repeats"] = rng.choice([1, 1, 2, 3])
+    if rng.random() < 0.5:
+        # keep building on the tree the Processor returned, then process again
+        case["followup"] = {"pe": rng.choice(["sql", "it", "it2"]), "lit": rng.randint(-2, 2), "op": rng.choice(["gt", "le", "ne"]), "kind": rng.choice(["sel", "sel", "calc"])}
     return case
 
 
@@ -201,6 +204,40 @@ def run_case(case):
             for node in needed_mats:
                 if node.payload is None:
                     out["violations"].append({"kind": "materialization_left_without_payload", "detail": f"{short(node)} in {model.show(prog)} after pass {rep + 1}"})
+        # ---- a further operation requested on the PROCESSED tree (its transfers and materializations
+        # carry payloads now), inserted upstream where the library can, then processed again: the rows
+        # must be those of the whole sequence - nothing cached for the old tree may be served for the new
+        fu = case.get("followup")
+        if fu and not out["violations"] and rel.columns:
+            from ..exprs import elib, plib
+            from ..tags import T
+
+            col = sorted(t.qualified_name for t in rel.columns)[0]
+            free = [x for x in "efg" if x not in {t.qualified_name for t in rel.columns}]
+            if fu["kind"] == "calc" and free:
+                node = ["calc", prog, free[0], ["add", ["ref", col], ["lit", fu["lit"]]], None]
+            else:
+                node = ["sel", prog, ["cmp", fu["op"], ["ref", col], ["lit", fu["lit"]]], None]
+            try:
+                want2 = m.eval(node)
+            except (model.Skip, model.ModelError):
+                want2 = None
+            if want2 is not None:
+                try:
+                    if node[0] == "calc":
+                        rel2 = processed.with_calculated_column(T(node[2]), elib(node[3]), preferred_engine=engines[fu["pe"]])
+                    else:
+                        rel2 = processed.with_rows_satisfying(plib(node[2]), preferred_engine=engines[fu["pe"]])
+                    rows2, processed2, _ = multi.evaluate(rel2, db)
+                except R.RelationalAlgebraError:
+                    c["followup_refused"] = c.get("followup_refused", 0) + 1
+                except Exception as exc:  # noqa: BLE001
+                    if not multi.prune_order_loss(processed, exc):
+                        out["violations"].append({"kind": "followup_on_processed_tree_raised", "detail": f"{model.show(node)} requested on the processed tree with preferred engine {fu['pe']}: {exc_str(exc)}"})
+                else:
+                    c["followups_on_processed_tree_compared"] = c.get("followups_on_processed_tree_compared", 0) + 1
+                    if model.canon(rows2) != model.canon(want2.rows):
+                        out["violations"].append({"kind": "rows_differ_after_building_on_processed_tree", "detail": f"{model.show(node)} requested on the processed tree with preferred engine {fu['pe']}: tree {short(rel2, 300)} got {short(model.canon(rows2), 250)} want {short(model.canon(want2.rows), 250)}"})
         sig_prog = gen.op_signature(prog)
         if ("x" in sig_prog or "m" in sig_prog) and any(pattern):
             out["sig"] = sig_prog + "|" + "/".join(pattern)
